@@ -69,6 +69,18 @@ def main():
             if rep and not (hist[0][0].shape == hist[rep][0].shape and np.array_equal(hist[0][0], hist[rep][0]) and hist[0][1] == hist[rep][1]):
                 return {"reproduced": True, "detail": f"run {rep + 1} with random_state=7 (clustering on) in the same process differs from run 1",
                         "input": {"probe": "same-seed-repeated", "run": rep + 1}}
+        # (1c) a likelihood that is zero on part of the prior (the -inf replacement draws indices): still reproducible
+        def ll_cut(x):
+            return -np.inf if x[0] < -1.0 else -0.5 * float(np.sum(x ** 2))
+        cut = []
+        for rep in range(2):
+            np.random.seed(1000 + rep)              # different ambient stream: the run must only depend on random_state
+            s = Sampler(pt, ll_cut, n_dim=2, n_particles=32, random_state=11, output_dir=tmp)
+            s.run(n_total=64, progress=False)
+            cut.append((s.state.get_history("u", flat=True), s.evidence()[0]))
+        if cut[0][0].shape != cut[1][0].shape or not np.array_equal(cut[0][0], cut[1][0]) or cut[0][1] != cut[1][1]:
+            return {"reproduced": True, "detail": "two runs with random_state=11 on a likelihood that is -inf on part of the prior differ",
+                    "input": {"probe": "same-seed-with-zero-likelihood-region"}}
         # (2)
         X = np.random.RandomState(5).rand(300, 2)
         X[:150] += 3
